@@ -17,6 +17,7 @@ import (
 
 func init() {
 	assumeSite("C12-DELEG", "runtime.(TempVM).CompileLoad#delegates:CompileLoad", "ahead-of-time compile mode registers into the base VM on purpose (see the CompileMode fallbacks in TempVM.GetOrLoadClass/LoadPkg); not used while serving requests")
+	assumeSite("C12-DELEG", "runtime.(TempVM).RunCompiledFile#delegates:RunCompiledFile", "ahead-of-time compiled files are a process-wide registry (RegisterCompiledFile is Go-side, from generated code) run once per process in the base VM, like CompileLoad; the programs come from outside the module, so whether the call graph sees a path depends only on how (*VM).RunCompiledFile shares its tail with LoadAndRun")
 	assumeSite("C12-DELEG", "runtime.(TempVM).RegisterFunction#delegates:RegisterFunction", "Go-side registration API: native functions are process-wide by design")
 	assumeSite("C12-DELEG", "runtime.(TempVM).RegisterReflectClass#delegates:RegisterReflectClass", "Go-side registration API: native classes are process-wide by design")
 	assumeSite("C12-DELEG", "runtime.(TempVM).RunShutdownCallbacks#delegates:RunShutdownCallbacks", "process-level shutdown callbacks run once at process end in the base VM's context; not part of serving a request")
@@ -584,6 +585,67 @@ func c12Run(r *Run) {
 		memo[start] = false
 		return false
 	}
+	// the same question with the calls the start function makes through its own function-typed
+	// parameters left out
+	reachesWithoutCallbacks := func(start *ssa.Function) bool {
+		viaParam := map[ssa.CallInstruction]bool{}
+		for _, b := range start.Blocks {
+			for _, in := range b.Instrs {
+				if ci, ok := in.(ssa.CallInstruction); ok && !ci.Common().IsInvoke() {
+					if _, isParam := ci.Common().Value.(*ssa.Parameter); isParam {
+						viaParam[ci] = true
+					}
+				}
+			}
+		}
+		if len(viaParam) == 0 {
+			return reachesFrom(start)
+		}
+		seen := map[*ssa.Function]bool{start: true}
+		var q []*ssa.Function
+		if n := cg.Nodes[start]; n != nil {
+			for _, e := range n.Out {
+				if viaParam[e.Site] || !inModule(e.Callee.Func) || seen[e.Callee.Func] {
+					continue
+				}
+				seen[e.Callee.Func] = true
+				q = append(q, e.Callee.Func)
+			}
+		}
+		for _, af := range start.AnonFuncs {
+			if !seen[af] {
+				seen[af] = true
+				q = append(q, af)
+			}
+		}
+		for len(q) > 0 {
+			f := q[0]
+			q = q[1:]
+			if targets[f] {
+				return true
+			}
+			for _, c := range succ(f) {
+				if !seen[c] {
+					seen[c] = true
+					q = append(q, c)
+				}
+			}
+		}
+		return false
+	}
+	literalCallbacksOnly := func(call *ast.CallExpr) bool {
+		n := 0
+		for _, a := range call.Args {
+			if _, isFunc := info.TypeOf(a).Underlying().(*types.Signature); !isFunc {
+				continue
+			}
+			if _, isLit := ast.Unparen(a).(*ast.FuncLit); !isLit {
+				return false
+			}
+			n++
+		}
+		return n > 0
+	}
 	reaches := map[*ssa.Function]bool{}
 	for _, fn := range vmMethods {
 		if targets[fn] || reachesFrom(fn) {
@@ -638,6 +700,15 @@ func c12Run(r *Run) {
 			key := fmt.Sprintf("%s#delegates:%s", funcKey(pkg, fd), m)
 			fn := vmMethods[m]
 			if fn == nil {
+				continue
+			}
+			if reaches[fn] && literalCallbacksOnly(call) && !reachesWithoutCallbacks(fn) {
+				// a higher-order base method (oncePerFile(file, func…)) given function literals written in
+				// this TempVM method: what the literals do is this method's own code (their delegations are
+				// judged above like any other); the base method itself is judged without the calls it makes
+				// through its function-typed parameters, which the call graph resolves to every callback
+				// any caller passes
+				r.ok(key, call.Pos(), fmt.Sprintf("Base.%s cannot reach the base VM's Add* except through the callbacks passed here, which are function literals of this method", m))
 				continue
 			}
 			if reaches[fn] {
